@@ -74,8 +74,8 @@ def problems(doc, *, transformed: bool, warnings_text: str = "", sphinx: bool = 
                 rid = n["refid"]
                 if sphinx and isinstance(n, nodes.problematic):
                     continue  # Sphinx removes system messages from the tree by design (they are logged instead)
-                if rid not in owner and docinfo_removed and isinstance(n, nodes.footnote_reference):
-                    continue  # the definition was written inside the leading field list that Sphinx lifted out of the tree
+                if rid not in owner and docinfo_removed and isinstance(n, (nodes.footnote_reference, nodes.reference)):
+                    continue  # the definition / target was written inside the leading field list that Sphinx lifted out of the tree
                 if rid not in owner:
                     has_msg = any("target not found" in s.astext() for s in n.findall(nodes.system_message))
                     if not (has_msg or rid in missing_targets):
